@@ -8,7 +8,10 @@ history can be replayed verbatim.
 """
 import numpy as np
 
-from harness.c02_oracle import dump_arr, dump_legS, struct_of, valid, index_charge, label_perm
+from harness.c02_oracle import (dump_arr, dump_legS, struct_of, valid, index_charge, label_perm, legs_same,
+                                legs_contractible)
+
+FACT_OPS = ('svd', 'qr', 'lq', 'eigh', 'eig', 'expm', 'pinv')
 
 
 class H:
@@ -17,6 +20,9 @@ class H:
     def __init__(self, env, pool_legs, mods, io, npc, ch, cy):
         self.env, self.pool, self.mods0, self.io, self.npc, self.ch, self.cy = env, pool_legs, mods, io, npc, ch, cy
         self.n = 0
+        self.plan = []        # step generators queued by a multi-step plan (harness/c02_stepgen.py)
+        self.protect = {}     # names the running plan still needs
+        self.inexact = False  # a factorization happened: entries are no longer small integers
 
     def fresh(self):
         self.n += 1
@@ -62,6 +68,122 @@ def make_leg_arg(Hh, spec):
         l = Hh.pool[spec['pool']]
         return l.conj() if spec.get('conj') else l
     return Hh.io.make_leg(spec)
+
+
+def run_fact(Hh, st, a):
+    """svd / qr / lq / eigh / eig / expm / pinv of the matrix `a` on the real code. No model: the returned tensors are
+    put into the environment; the documented contract of the call (legs of the factors, contractible inner legs,
+    qtotal of the factors, a = product of the factors for float64/complex128) is checked here with python ints."""
+    npc, env = Hh.npc, Hh.env
+    op = st['op']
+    # integer matrices are converted first (np.linalg.qr returns float blocks, which qr() puts into an int64 Array:
+    # meaningless input); eigh / eig get double precision (for single precision _eig_worker returns V with dtype
+    # complex128 / float64 but complex64 / float32 blocks: upstream weakness, see notes/C02.md). Done here and not in
+    # the generator because the dtype of a tensor without blocks depends on the kernel configuration (C04).
+    if a.dtype.kind not in 'fc':
+        a = a.astype(np.float64)
+    elif op in ('eigh', 'eig') and a.dtype in (np.dtype('float32'), np.dtype('complex64')):
+        a = a.astype(np.float64 if a.dtype.kind == 'f' else np.complex128)
+    mods, q = mods_of(a), qt_of(a)
+    zero = [0] * len(mods)
+    leg0, leg1 = a.legs[0], a.legs[1]
+    lab0, lab1 = a._labels[0], a._labels[1]
+    labs = list(st.get('labels') or [None, None])
+    iq = st.get('inner_qconj', 1)
+    contract = []
+    recon = None
+
+    def want(cond, msg):
+        if not cond:
+            contract.append(msg)
+
+    def vq(c):
+        return valid(mods, [int(x) for x in c])
+
+    ad = None
+    if a.dtype in (np.dtype('float64'), np.dtype('complex128')) and int(np.prod(a.shape, dtype=np.int64)) <= 20000:
+        ad = a.to_ndarray()
+
+    def rec(x):
+        nonlocal recon
+        if ad is not None and x.shape == ad.shape:
+            recon = (float(np.max(np.abs(x - ad), initial=0.0)), 1.e-6 * max(1.0, float(np.max(np.abs(ad), initial=0.0))))
+
+    Hh.inexact = True
+    # coverage: what kind of block list the factorization receives (evidence histogram, not part of the step)
+    if not all(l.is_blocked() for l in a.legs):
+        cov = 'legs-not-blocked(piped-inside)'
+    elif len(a._data) < 2:
+        cov = 'blocked,<2-blocks'
+    else:
+        rows = [tuple(int(x) for x in r)[::-1] for r in a._qdata]
+        cov = 'blocked,rows-lexsorted' if rows == sorted(rows) else 'blocked,rows-NOT-lexsorted'
+    if op == 'svd':
+        qL, qR = st.get('qL'), st.get('qR')
+        U, S, VH = npc.svd(a, cutoff=st.get('cutoff'), qtotal_LR=[qL, qR], inner_labels=labs, inner_qconj=iq)
+        if qL is None and qR is None:
+            eL, eR = zero, q
+        elif qL is None:
+            eR = vq(qR)
+            eL = vq([x - y for x, y in zip(q, eR)])
+        else:
+            eL = vq(qL)
+            eR = vq(qR) if qR is not None else vq([x - y for x, y in zip(q, eL)])
+        outs, qts = [U, VH], [eL, eR]
+        want(legs_same(U.legs[0], leg0), 'U.legs[0] is not a.legs[0]')
+        want(legs_same(VH.legs[1], leg1), 'VH.legs[1] is not a.legs[1]')
+        want(legs_contractible(U.legs[1], VH.legs[0]), 'U.legs[1] is not contractible with VH.legs[0]')
+        want(int(VH.legs[0].qconj) == iq, f'VH.legs[0].qconj = {VH.legs[0].qconj}, inner_qconj = {iq}')
+        want(len(S) == U.shape[1] == VH.shape[0], f'len(S) = {len(S)}, U {U.shape}, VH {VH.shape}')
+        want(vq([x + y for x, y in zip(qt_of(U), qt_of(VH))]) == q, f'qtotal {qt_of(U)} + {qt_of(VH)} != {q}')
+        want(U._labels == [lab0, labs[0]] and VH._labels == [labs[1], lab1], f'labels {U._labels}, {VH._labels}')
+        if st.get('cutoff') is None or st['cutoff'] <= 1.e-6:
+            rec((U.to_ndarray() * np.asarray(S)[np.newaxis, :]) @ VH.to_ndarray())
+    elif op in ('qr', 'lq'):
+        qQ = st.get('qQ')
+        kw = dict(mode=st.get('mode', 'reduced'), inner_labels=labs, cutoff=st.get('cutoff'), qtotal_Q=qQ, inner_qconj=iq)
+        eQ = vq(qQ) if qQ is not None else zero
+        eR = vq([x - y for x, y in zip(q, eQ)])
+        if op == 'qr':
+            Q, R = npc.qr(a, pos_diag_R=st.get('pos_diag', False), **kw)
+            outs, qts = [Q, R], [eQ, eR]
+            X, Y = Q, R
+            want(int(R.legs[0].qconj) == iq, f'R.legs[0].qconj = {R.legs[0].qconj}, inner_qconj = {iq}')
+        else:
+            L, Q = npc.lq(a, pos_diag_L=st.get('pos_diag', False), **kw)
+            outs, qts = [L, Q], [eR, eQ]
+            X, Y = L, Q
+        want(legs_same(X.legs[0], leg0), f'{op}: first factor, legs[0] is not a.legs[0]')
+        want(legs_same(Y.legs[1], leg1), f'{op}: second factor, legs[1] is not a.legs[1]')
+        want(legs_contractible(X.legs[1], Y.legs[0]), f'{op}: inner legs are not contractible')
+        want(vq([x + y for x, y in zip(qt_of(X), qt_of(Y))]) == q, f'qtotal {qt_of(X)} + {qt_of(Y)} != {q}')
+        want(X._labels == [lab0, labs[0]] and Y._labels == [labs[1], lab1], f'labels {X._labels}, {Y._labels}')
+        rec(X.to_ndarray() @ Y.to_ndarray())
+    elif op in ('eigh', 'eig'):
+        if op == 'eigh':
+            W, V = npc.eigh(a, UPLO=st.get('UPLO', 'L'), sort=st.get('sort'))
+        else:
+            W, V = npc.eig(a, sort=st.get('sort'))
+        outs, qts = [V], [zero]
+        want(legs_same(V.legs[0], leg0), 'V.legs[0] is not a.legs[0]')
+        want(len(W) == V.shape[1] == a.shape[0], f'len(W) = {len(W)}, V {V.shape}')
+        want(V._labels == [lab0, 'eig'], f'labels {V._labels}')
+    elif op == 'expm':
+        E = npc.expm(a)
+        outs, qts = [E], [zero]
+        want(legs_same(E.legs[0], leg0) and legs_same(E.legs[1], leg1), 'legs of expm(a) are not the legs of a')
+        want(E._labels == [lab0, lab1], f'labels {E._labels}')
+    elif op == 'pinv':
+        B = npc.pinv(a, cutoff=st.get('cutoff', 1.e-8))
+        outs, qts = [B], [vq([-x for x in q])]
+        want(legs_contractible(B.legs[0], leg1) and legs_contractible(B.legs[1], leg0),
+             'legs of pinv(a) are not contractible with the legs of a')
+    else:
+        raise KeyError(op)
+    names = [st['out'], st.get('out2')][:len(outs)]
+    for n, t in zip(names, outs):
+        env[n] = t
+    return dict(outs={}, touched=set(names), qt=dict(zip(names, qts)), dense={}, contract=contract, recon=recon, cov=cov)
 
 
 def prep(Hh, st):
@@ -422,6 +544,11 @@ def prep(Hh, st):
                 return dict(outs={}, touched=set(), qt={}, dense={}, scalar=True)
             return new(res, qt_of(a), dense=np.trace(a.to_ndarray(), axis1=norm_ax(a, st['l1']), axis2=norm_ax(a, st['l2'])))
         return line, run
+    # ---------------------------------------------------------------- factorizations: oracle-only (no model line);
+    # the factors enter the environment like generated operands: every later step takes their REAL structure as
+    # its input, the model-free oracle inspects them after this and every later step
+    if op in FACT_OPS:
+        return None, lambda: run_fact(Hh, st, a)
     # ---------------------------------------------------------------- oracle-only operations (no model)
     if op == 'inner':
         def run():
